@@ -41,6 +41,8 @@ def build_harness(kind):
     try:
         env = {"CARGO_TARGET_DIR": os.path.join(HARNESS, "target", kind), "CARGO_NET_OFFLINE": "true"}
         cmd = ["cargo", "build", "--release", "--offline", "--quiet"]
+        if kind == "shipping":    # public API only, the crate compiled without debug assertions and overflow checks
+            cmd = ["cargo", "build", "--profile", "shipping", "--offline", "--quiet"]
         if kind == "hooked":
             env["RUSTFLAGS"] = GUARD_FLAGS
             cmd += ["--features", "hooks"]
@@ -53,7 +55,7 @@ def build_harness(kind):
             errs = "\n".join(l for l in out.splitlines() if l.startswith("error") or "-->" in l)[:3000]
             raise ToolError(f"harness ({kind}) does not build against /repo's working tree:\n{errs}")
         log(f"[build] harness {kind} ok in {time.time()-t0:.1f}s")
-        return os.path.join(HARNESS, "target", kind, "release", "fqv")
+        return os.path.join(HARNESS, "target", kind, "shipping" if kind == "shipping" else "release", "fqv")
     finally:
         fcntl.flock(lock, fcntl.LOCK_UN)
         lock.close()
